@@ -341,3 +341,5 @@ def run(repo: Repo, rep: Report, tier: str) -> None:
     _borrow19b(repo, rep, "C12", "C12-R2", "C19-R6", "which connectors share a network does not depend on where the solver put things: a relay reused by one network is booked for it, so a "
                "second network of the same colour is never chained through it, whatever placement makes the reuse possible", floor=2)
     _borrow19b(repo, rep, "C17", "C17-R8", "C19-R7", "the result does not depend on the working directory: the front ends tell the parser where the importing file is", floor=1)
+    _borrow19b(repo, rep, "C08", "C08-R4", "C19-R8", "a connection means the same whether it is laid directly or through relay poles (which placement needs relays is the solver's business): "
+               "the ends of a relayed connection keep the connector sides of the direct one, poles in between carry none", select=lambda o: "_create_relay_chain" in o.construct, floor=4)
